@@ -63,3 +63,9 @@ pub assume_specification [<{dst} as TryFrom<{src}>>::try_from] (x: {src}) -> (r:
     ensures ({dst}::MIN <= x <= {dst}::MAX) ==> (r is Ok && r->Ok_0 as int == x as int),
             !({dst}::MIN <= x <= {dst}::MAX) ==> r is Err;
 '''
+
+VEC_CAPACITY = r'''
+pub assume_specification<T, A> [std::vec::Vec::<T, A>::capacity] (v: &std::vec::Vec<T, A>) -> (r: usize)
+    where A: std::alloc::Allocator,
+    ensures r >= v@.len();
+'''
